@@ -745,6 +745,41 @@ def opts_frame(ctx, rule="B1", fields=("StreamOrder",)):
         ctx.unverifiable(rule, "floor", "-", "no StreamOpts builder method with the selected fields %s found" % (fields,))
 
 
+def order_wiring(ctx, rule="B2"):
+    """The stream order chosen by the caller reaches the scheduler set-up: for
+    every public entry point taking `opts: StreamOpts`, `opts.stream_order`
+    of that very parameter is among the value sources of the set-up function's
+    StreamOrder parameter (a wrapper passing `StreamOpts::default()` instead of
+    its own `opts` silently runs forward)."""
+    fb, m, fl = ctx.fb, ctx.model, ctx.model.flow
+    setup = fb.bodies.get(m.SETUP) if m.SETUP else None
+    if setup is None:
+        ctx.unverifiable(rule, "setup", "-", "scheduler set-up function not found")
+        return
+    pis = [i for i in range(1, setup.arg_count + 1) if "StreamOrder" in setup.locals[i]["s"]]
+    so = fb.adts.get("stream_opts::StreamOpts")
+    if not pis or not so:
+        ctx.unverifiable(rule, "order-param", m.where(setup), "the set-up function takes no StreamOrder")
+        return
+    f_order = [i for i, f in enumerate(so["variants"][0]["fields"]) if "StreamOrder" in f["ty"]["s"]][0]
+    srcs = fl.sources_local(setup, pis[0], ())
+    n = 0
+    for e in m.entries:
+        oi = None
+        for i, x in enumerate(e["inputs"]):
+            if x["s"].startswith("stream_opts::StreamOpts<"):
+                oi = i + 1
+        if oi is None:
+            continue
+        n += 1
+        has = any(s.kind == "param" and s[1] == e["id"] and s[2] == oi and tuple(s[3][:1]) == (f_order,) for s in srcs)
+        ctx.check(has, rule, "order|%s" % e["name"], "%s:%d (FnGraph::%s)" % (e["sp"]["file"], e["sp"]["line"], e["name"]),
+                  "opts.stream_order of this entry point reaches the scheduler set-up",
+                  "opts.stream_order of this entry point never reaches the scheduler set-up (its options are dropped on the way): reverse order is ignored")
+    if n < 4:
+        ctx.unverifiable(rule, "floor", "-", "expected entry points taking StreamOpts, found %d" % n)
+
+
 def S1_opts(ctx, rule):
     """StreamOpts::rev stores Reverse; default stores Forward."""
     fb = ctx.fb
@@ -975,6 +1010,12 @@ def closure_of_arg(ctx, body, e):
     e = strip_refs(e)
     if e.kind == "agg" and e[1] in ("closure", "coroutine_closure"):
         return ctx.fb.bodies.get(e[2])
+    if e.kind == "fnconst":
+        # a named function passed where a closure is expected
+        r = (e[2] or {}).get("resolved") if isinstance(e[2], dict) else None
+        if isinstance(r, dict) and r.get("path") in ctx.fb.bodies:
+            return ctx.fb.bodies[r["path"]]
+        return ctx.fb.bodies.get(e[1])
     if e.kind in ("local", "arg"):
         ty = body.locals[e[1]]
         if ty.get("k") == "closure":
@@ -1239,6 +1280,10 @@ def S3(ctx, rule="S3"):
                     id_ok = m.is_done_item(idsrc)
                     # structure provenance: SETUP's structure (first Dag-typed field of its result)
                     st_ok = structure_from_setup(ctx, gsrc)
+                    if st_ok:
+                        paired = setup_paired_structure(ctx)
+                        if paired is not None and set(gsrc) != set(paired):
+                            st_ok = False
                     # Walker::iter second argument = same graph
                     it = [(p2, cb2, e2) for p2, cb2, e2 in chain if p2 == "daggy::Walker::iter"]
                     same_g = True
@@ -1260,6 +1305,26 @@ def S3(ctx, rule="S3"):
                   why)
     ctx.counts[rule + ".release_loops"] = n
     ctx.entry_floor(rule, rule, ('stream', 'fold', 'for_each', 'try_fold', 'try_for_each'), "release loop decrementing COUNTS")
+    # wherever the per-run counts are handed on together with a structure, it is the structure the set-up paired them with
+    paired = setup_paired_structure(ctx)
+    pf = {x[3][0] for x in (paired or ()) if x.kind == "param" and x[3]}
+    for b in fb.prod_bodies():
+        for bb, t in b.calls():
+            p = callee_path(t)
+            if p not in fb.bodies:
+                continue
+            cnt = [a for a in t["args"] if a["k"] != "const" and "usize" in a["pl"]["ty"] and
+                   count_role(ctx, fl.sources_operand(b, a))[0] and not count_role(ctx, fl.sources_operand(b, a))[1]]
+            dags = [a for a in t["args"] if a["k"] != "const" and "daggy::Dag<()" in a["pl"]["ty"]]
+            if not cnt or not dags or paired is None:
+                continue
+            for a in dags:
+                gs = fl.sources_operand(b, a)
+                gf = {x[3][0] for x in gs if x.kind == "param" and x[3]}
+                ctx.check(structure_from_setup(ctx, gs) and gf == pf, rule, "pair-passed|%s|%s" % (short(b.id), short(p)), m.where(b, bb),
+                          "the counts are handed to %s together with the structure the set-up paired them with" % short(p),
+                          "the per-run counts are handed to %s together with a different structure (FnGraph fields %s, the set-up pairs the counts with fields %s): "
+                          "in one order the release walk follows the wrong edges" % (short(p), sorted(gf), sorted(pf)))
     # no other mutation of COUNTS: no call receives &mut COUNTS except index_mut
     for b in fb.prod_bodies():
         for bb, t in b.calls():
@@ -1278,6 +1343,25 @@ def S3(ctx, rule="S3"):
                     if keys:
                         ctx.bad(rule, "other-mutation|%s|%s" % (short(b.id), p), m.where(b, bb),
                                 "COUNTS is passed mutably to %s" % p)
+
+
+def setup_paired_structure(ctx):
+    """value sources of the structure the set-up function returns together with the per-run counts"""
+    m, fb, fl = ctx.model, ctx.fb, ctx.model.flow
+    cached = getattr(m, "_paired_structure", False)
+    if cached is not False:
+        return cached
+    res = None
+    setup = fb.bodies.get(m.SETUP) if m.SETUP else None
+    if setup is not None:
+        for bb, si, s in setup.stmts():
+            if s["k"] == "assign" and s["pl"]["l"] == 0 and s["rv"]["k"] == "agg" and s["rv"]["ak"] in ("adt", "tuple"):
+                for i, o in enumerate(s["rv"]["ops"]):
+                    if "daggy::Dag<()" in (o.get("pl", {}).get("ty") or ""):
+                        res = fl.sources_local(setup, 0, (i,))
+                        break
+    m._paired_structure = res
+    return res
 
 
 def structure_from_setup(ctx, srcs):
@@ -1702,6 +1786,17 @@ def S7(ctx, rule="S7"):
                   "result of the %s is not unwrapped/expected (its receiver is legitimately gone after interrupt, error or stream drop)" % what,
                   "result of the %s is unwrapped/expected at %s: panics when the receiver was dropped" % (
                       what, [b.loc(x) for x in pan]))
+    # releasing a sender must not assert that it is still held: another exit (a failure, an interruption) may have released it already
+    for b in fb.prod_bodies():
+        for bb, t in b.calls():
+            if callee_path(t) not in PANICKING or not t["args"] or t["args"][0]["k"] == "const":
+                continue
+            e0 = strip_refs(expr_operand(b, t["args"][0]))
+            if e0.kind == "call" and e0[1] in (TAKE, "std::mem::take", "std::mem::replace") and e0[2]:
+                roles = holder_roles(ctx, b, strip_refs(e0[2][0]))
+                if roles & {"DONE", "READY"}:
+                    ctx.bad(rule, "release-unwrapped|%s" % short(b.id), m.where(b, bb),
+                            "the %s sender is released with `take().expect(..)`: panics when another exit (failure, interruption, empty graph) has released it before" % sorted(roles))
     ctx.counts[rule] = n
     kinds_seen = {o.key.split("|")[1] for o in ctx.obs if o.rule == rule}
     for k in ("release-loop", "done", "FnRef::drop"):
